@@ -19,12 +19,13 @@ theorem prog_run_compiled (p : Bc.Program w) (limited safe : Bool) (cfg : Cfg) {
     (hsmall : sizeAll code < 2 ^ 31)
     (hIO : cfg.aI ≠ cfg.aO) (hEI : cfg.aE ≠ cfg.aI) (hEO : cfg.aE ≠ cfg.aO)
     (hchk : BcWf.check p 11 = true)
-    (hwin : -2147483648 ≤ p.minAcc ∧ p.maxAcc < 2147483648)
+    (hwin : -2147483648 < p.minAcc ∧ p.maxAcc < 2147483648)
     (htemps : alignedTemps p.temps * 8 < 2147483648)
     (hshift : ∀ (i : Nat) (sh : Int), p.insts[i]? = some (Bc.Instr.mov sh) → -2147483648 ≤ sh ∧ sh < 2147483648)
-    (hmov : safe = false ∨ ∀ (i : Nat) (sh : Int), p.insts[i]? ≠ some (Bc.Instr.mov sh))
     (buf0 rsp0 ra : BitVec 64) (hrsp : rsp0.toNat % 16 = 8)
-    (budget : Nat) (hb : budget < 2 ^ 64) (hlim : (limited && budget == 0) = false) (env : Env) (fuel : Nat) :
+    (budget : Nat) (hb : budget < 2 ^ 64) (hlim : (limited && budget == 0) = false) (env : Env)
+    (hoom : safe = true → ∀ n s', steps cfg n (initState (w := w) cfg buf0 rsp0 ra p.minAcc p.maxAcc budget env)
+      = some s' → Bnd s') (fuel : Nat) :
     ∃ K : Ctx w, K.p = p ∧ K.cfg = cfg ∧ K.limited = limited ∧
       let s0 : PState w := initState cfg buf0 rsp0 ra p.minAcc p.maxAcc budget env
       match Bc.run p limited budget fuel env with
@@ -39,11 +40,11 @@ theorem prog_run_compiled (p : Bc.Program w) (limited safe : Bool) (cfg : Cfg) {
   have L := C11.localOk_facts hloc
   have hf : cfg.fetch = fetchList code := by rw [hfetch, fetchFast_eq]
   let K : Ctx w := ⟨p, limited, safe, cfg, code, C, hf, hsmall, hIO, hEI, hEO, L.liveSize⟩
-  have G : Good K := ⟨hchk, hwin, htemps, hshift, hmov⟩
+  have G : Good K := ⟨hchk, hwin, htemps, hshift⟩
   refine ⟨K, rfl, rfl, rfl, ?_⟩
   intro s0
-  obtain ⟨hE, henv, htr, hbud⟩ := initState_entry K ⟨L.min0, L.max0⟩ hwin buf0 rsp0 ra hrsp budget hb env
-  exact prog_run' K G hE henv htr hbud hlim fuel
+  obtain ⟨hE, henv, htr, hbud⟩ := initState_entry K ⟨L.min0, L.max0⟩ ⟨Int.le_of_lt hwin.1, hwin.2⟩ buf0 rsp0 ra hrsp budget hb env
+  exact prog_run' K G hE henv htr hbud hlim hoom fuel
 
 end C03
 end Hpbf
